@@ -21,6 +21,7 @@ type c12Scenario struct {
 	framing map[int]bool  // clients whose data legitimately depends on the interleaving (a file they read is rewritten by
 	// another client): only the framing of their stream is judged, not its content
 	clients [][]Req
+	after   map[int]int // client index -> index of the client whose script must have been consumed (request bytes and FIN read by the server) before this one connects
 	allow   bool
 	reset   func()
 	files   map[string][]byte // expected uploaded contents (path -> bytes)
@@ -59,11 +60,9 @@ func c12Exec(t *testing.T, root string, sc c12Scenario, only int, prefix []int) 
 		s := startSrvWith(h, ln, 0)
 		var conns []*Conn
 		var order bytes.Buffer
-		for i, script := range sc.clients {
-			if only >= 0 && i != only {
-				conns = append(conns, nil)
-				continue
-			}
+		conns = make([]*Conn, len(sc.clients))
+		var dial func(i int)
+		dial = func(i int) {
 			c := s.ln.Dial(nil)
 			if fa, ok := sc.failAt[i]; ok {
 				c.outFailAt = fa
@@ -74,14 +73,36 @@ func c12Exec(t *testing.T, root string, sc c12Scenario, only int, prefix []int) 
 				if op == "conn.Write" {
 					order.WriteByte(byte('A' + id))
 				}
+				if op == "conn.Read" && only < 0 {
+					// the server is about to read the end of this client's stream: clients waiting for that connect now
+					c.mu.Lock()
+					drained := len(c.in) == 0 && c.inEOF
+					c.mu.Unlock()
+					if drained {
+						for j, dep := range sc.after {
+							if dep == id && conns[j] == nil {
+								dial(j)
+							}
+						}
+					}
+				}
 				sched.Point(op)
 			}
-			for _, rq := range script {
+			for _, rq := range sc.clients[i] {
 				c.Send(rq.Encode())
 			}
 			c.Fin()
-			conns = append(conns, c)
+			conns[i] = c
 			s.conns = append(s.conns, c)
+		}
+		for i := range sc.clients {
+			if only >= 0 && i != only {
+				continue
+			}
+			if _, late := sc.after[i]; late && only < 0 {
+				continue
+			}
+			dial(i)
 		}
 		sched.Run()
 		out.points = sched.points
@@ -110,7 +131,7 @@ func c12Exec(t *testing.T, root string, sc c12Scenario, only int, prefix []int) 
 func TestC12(t *testing.T) {
 	r := NewReporter(t)
 	defer r.Done()
-	r.Rule("9 scenarios of 2-3 connections whose requests collide (same plain file, same generated image across member boundaries, CD images of different sector size, two directory enumerations, uploads into sibling files, churn); scheduling points = every connection read/write/close, every accept and every leaf filesystem operation of the server goroutines; all interleavings with <= 2 (quick) / <= 3 (thorough) preemptions; oracle: each client's response stream equals the stream of its script run alone, connection closed, handle ledger empty, uploaded files exact; distinct by schedule (choice sequence)")
+	r.Rule("10 scenarios of 2-3 connections whose requests collide (same plain file, same generated image across member boundaries, CD images of different sector size, two directory enumerations, uploads into sibling files, churn, a client connecting while another one's teardown is running); scheduling points = every connection read/write/close, every accept and every leaf filesystem operation of the server goroutines; all interleavings with <= 2 (quick) / <= 3 (thorough) preemptions; oracle: each client's response stream equals the stream of its script run alone, connection closed, handle ledger empty, uploaded files exact; distinct by schedule (choice sequence)")
 	w, _ := buildC02World(t, r)
 	defer w.Cleanup()
 	mkCDImage(w.Root, cdImg{name: "cd2336.bin", sector: 2336, sig: "psx", size: 0x200000}, 3)
@@ -153,6 +174,11 @@ func TestC12(t *testing.T) {
 		}, clients: [][]Req{
 			{mkReq(opOpenFile, "/w/shared.bin"), rdReq(0, 4000), rdReq(3000, 4000), rdReq(100, 100), mkReq(opStatFile, "/plain")},
 			{mkReq(opCreateFile, "/w/shared.bin"), wrReq(patBytes(9, 0, 1500)), mkReq(opCreateFile, "/w")}}},
+		// a client that connects when another one has just finished (its teardown may still be running): per-connection
+		// state recycled from the finished connection must not be touched by that teardown any more
+		{name: "reconnect-during-teardown", after: map[int]int{1: 0}, clients: [][]Req{
+			{mkReq(opOpenFile, "/plain/f131073.bin"), rdcReq(0, 70000), mkReq(opOpenDir, "/d"), noargReq(opReadDirEntry)},
+			{mkReq(opOpenFile, "/plain/f65536.bin"), rdReq(0, 100), mkReq(opOpenDir, "/k3"), noargReq(opReadDirEntry), rdcReq(100, 1000), cdReq(0, 1)}}},
 		{name: "churn", clients: [][]Req{
 			{mkReq(opOpenFile, "/plain/f131073.bin"), rdcReq(0, 131073)},
 			{mkReq(opOpenFile, "/plain/f65536.bin"), rdcReq(0, 65536)},
@@ -164,99 +190,8 @@ func TestC12(t *testing.T) {
 	}
 	r.Extra("preemption_bound", bound)
 	for _, sc := range scs {
-		// solo baselines (run twice: must be deterministic)
-		var solo [][]byte
-		for i := range sc.clients {
-			a := c12Exec(t, w.Root, sc, i, nil)
-			b := c12Exec(t, w.Root, sc, i, nil)
-			if !bytes.Equal(a.streams[i], b.streams[i]) {
-				r.HarnessError(sprintf("scenario %s client %d: solo run is not deterministic", sc.name, i))
-				return
-			}
-			solo = append(solo, a.streams[i])
-		}
-		// determinism: the default schedule replayed twice gives identical points
-		d1 := c12Exec(t, w.Root, sc, -1, nil)
-		d2 := c12Exec(t, w.Root, sc, -1, choicesOf(d1.points))
-		if len(d1.points) != len(d2.points) {
-			r.HarnessError(sprintf("scenario %s: replaying the default schedule gave %d points instead of %d", sc.name, len(d2.points), len(d1.points)))
+		if !c12Explore(t, r, w.Root, sc, bound, "C12") {
 			return
-		}
-		for i := range d1.points {
-			if d1.points[i].Actor != d2.points[i].Actor || d1.points[i].Op != d2.points[i].Op {
-				r.HarnessError(sprintf("scenario %s: replay divergence at point %d", sc.name, i))
-				return
-			}
-		}
-		if r.Shard == 0 {
-			r.Extra("points_default_"+sc.name, len(d1.points))
-		}
-		run := func(prefix []int) []schedPoint {
-			o := c12Exec(t, w.Root, sc, -1, prefix)
-			r.Transition(int64(len(o.points)))
-			r.Eval(1)
-			key := sprintf("%s|%v", sc.name, choicesOf(o.points))
-			r.State(key)
-			if preemptionsBefore(o.points, len(o.points)) > 0 {
-				r.Nontrivial(key)
-			}
-			r.Outcome(sc.name + ":" + o.order)
-			rep := map[string]any{"scenario": sc.name, "choices": choicesOf(o.points), "points": len(o.points)}
-			viol := func(sig, msg string) {
-				// re-run 5 times from the choice sequence before believing it
-				for k := 0; k < 5; k++ {
-					again := c12Exec(t, w.Root, sc, -1, choicesOf(o.points))
-					same := len(again.streams) == len(o.streams)
-					for i := range o.streams {
-						if same && !bytes.Equal(again.streams[i], o.streams[i]) {
-							same = false
-						}
-					}
-					if !same || again.diverge != "" {
-						r.HarnessError(sprintf("scenario %s: violation %q does not reproduce from its choice sequence (%s)", sc.name, sig, again.diverge))
-						return
-					}
-				}
-				r.Violation("C12:"+sc.name+":"+sig, sprintf("scenario %s, schedule with %d preemption(s) %v: %s", sc.name, preemptionsBefore(o.points, len(o.points)), compactChoices(o.points), msg), rep)
-			}
-			if o.diverge != "" {
-				r.HarnessError("scenario " + sc.name + ": " + o.diverge)
-				return o.points
-			}
-			if o.aborted != "" {
-				viol("livelock", "execution exceeded the horizon of scheduling points")
-			}
-			for i := range sc.clients {
-				if sc.framing[i] {
-					if why := c12Framing(sc.clients[i], o.streams[i]); why != "" {
-						viol(sprintf("framing-lost:client%d", i), sprintf("client %d (its file is rewritten by another client meanwhile): %s", i, why))
-						break
-					}
-					continue
-				}
-				if !bytes.Equal(o.streams[i], solo[i]) {
-					viol(sprintf("stream-differs-from-solo:client%d", i), sprintf("client %d received a different response stream than when run alone: %s", i, describeDiff(o.streams[i], solo[i])))
-					break
-				}
-				if !o.closed[i] {
-					viol("not-closed", sprintf("client %d's connection was not closed", i))
-				}
-			}
-			if len(o.leaked) > 0 {
-				viol("handle-leak", sprintf("handles left open: %v", o.leaked))
-			}
-			for rel, want := range sc.files {
-				got, err := os.ReadFile(filepath.Join(w.Root, rel))
-				if err != nil || !bytes.Equal(got, want) {
-					viol("upload-content:"+rel, sprintf("uploaded file %s differs from its payload (%v)", rel, err))
-				}
-			}
-			return o.points
-		}
-		execs, complete := exploreSchedules(bound, r.Shard, r.NShards, run, r.TimeUp)
-		r.ExtraAdd("executions_"+sc.name, int64(execs))
-		if !complete {
-			r.NotExhaustive("schedule exploration of " + sc.name + " stopped at the internal deadline")
 		}
 	}
 	if r.Shard == 0 {
@@ -264,6 +199,106 @@ func TestC12(t *testing.T) {
 	}
 	r.Sample(map[string]any{"scenario": scs[0].name, "clients": scs[0].clients})
 	r.Assume("scheduling points at connection, accept and leaf filesystem operations are sufficient provided unsynchronised accesses are caught separately: the free-running -race adjunct (sampling, reported under 'race_adjunct') covers those and is not the deciding step")
+}
+
+// c12Explore explores every schedule of one scenario up to the preemption bound and judges each execution;
+// returns false after a harness error.
+func c12Explore(t *testing.T, r *Reporter, root string, sc c12Scenario, bound int, prop string) bool {
+	// solo baselines (run twice: must be deterministic)
+	var solo [][]byte
+	for i := range sc.clients {
+		a := c12Exec(t, root, sc, i, nil)
+		b := c12Exec(t, root, sc, i, nil)
+		if !bytes.Equal(a.streams[i], b.streams[i]) {
+			r.HarnessError(sprintf("scenario %s client %d: solo run is not deterministic", sc.name, i))
+			return false
+		}
+		solo = append(solo, a.streams[i])
+	}
+	// determinism: the default schedule replayed twice gives identical points
+	d1 := c12Exec(t, root, sc, -1, nil)
+	d2 := c12Exec(t, root, sc, -1, choicesOf(d1.points))
+	if len(d1.points) != len(d2.points) {
+		r.HarnessError(sprintf("scenario %s: replaying the default schedule gave %d points instead of %d", sc.name, len(d2.points), len(d1.points)))
+		return false
+	}
+	for i := range d1.points {
+		if d1.points[i].Actor != d2.points[i].Actor || d1.points[i].Op != d2.points[i].Op {
+			r.HarnessError(sprintf("scenario %s: replay divergence at point %d", sc.name, i))
+			return false
+		}
+	}
+	if r.Shard == 0 {
+		r.Extra("points_default_"+sc.name, len(d1.points))
+	}
+	run := func(prefix []int) []schedPoint {
+		o := c12Exec(t, root, sc, -1, prefix)
+		r.Transition(int64(len(o.points)))
+		r.Eval(1)
+		key := sprintf("%s|%v", sc.name, choicesOf(o.points))
+		r.State(key)
+		if preemptionsBefore(o.points, len(o.points)) > 0 {
+			r.Nontrivial(key)
+		}
+		r.Outcome(sc.name + ":" + o.order)
+		rep := map[string]any{"scenario": sc.name, "choices": choicesOf(o.points), "points": len(o.points)}
+		viol := func(sig, msg string) {
+			// re-run 5 times from the choice sequence before believing it
+			for k := 0; k < 5; k++ {
+				again := c12Exec(t, root, sc, -1, choicesOf(o.points))
+				same := len(again.streams) == len(o.streams)
+				for i := range o.streams {
+					if same && !bytes.Equal(again.streams[i], o.streams[i]) {
+						same = false
+					}
+				}
+				if !same || again.diverge != "" {
+					r.HarnessError(sprintf("scenario %s: violation %q does not reproduce from its choice sequence (%s)", sc.name, sig, again.diverge))
+					return
+				}
+			}
+			r.Violation(prop+":"+sc.name+":"+sig, sprintf("scenario %s, schedule with %d preemption(s) %v: %s", sc.name, preemptionsBefore(o.points, len(o.points)), compactChoices(o.points), msg), rep)
+		}
+		if o.diverge != "" {
+			r.HarnessError("scenario " + sc.name + ": " + o.diverge)
+			return o.points
+		}
+		if o.aborted != "" {
+			viol("livelock", "execution exceeded the horizon of scheduling points")
+		}
+		for i := range sc.clients {
+			if sc.framing[i] {
+				if why := c12Framing(sc.clients[i], o.streams[i]); why != "" {
+					viol(sprintf("framing-lost:client%d", i), sprintf("client %d (its file is rewritten by another client meanwhile): %s", i, why))
+					break
+				}
+				continue
+			}
+			if !bytes.Equal(o.streams[i], solo[i]) {
+				viol(sprintf("stream-differs-from-solo:client%d", i), sprintf("client %d received a different response stream than when run alone: %s", i, describeDiff(o.streams[i], solo[i])))
+				break
+			}
+			if !o.closed[i] {
+				viol("not-closed", sprintf("client %d's connection was not closed", i))
+			}
+		}
+		if len(o.leaked) > 0 {
+			viol("handle-leak", sprintf("handles left open: %v", o.leaked))
+		}
+		for rel, want := range sc.files {
+			got, err := os.ReadFile(filepath.Join(root, rel))
+			if err != nil || !bytes.Equal(got, want) {
+				viol("upload-content:"+rel, sprintf("uploaded file %s differs from its payload (%v)", rel, err))
+			}
+		}
+		return o.points
+	}
+	execs, complete := exploreSchedules(bound, r.Shard, r.NShards, run, r.TimeUp)
+	r.ExtraAdd("executions_"+sc.name, int64(execs))
+	if !complete {
+		r.NotExhaustive("schedule exploration of " + sc.name + " stopped at the internal deadline")
+	}
+	return true
 }
 
 func compactChoices(points []schedPoint) []string {
